@@ -229,7 +229,7 @@ pub fn run(ctx: &Ctx) {
     let corpus = [
         "the how", "better then ", "It is better then ", "/** {@link */", "/** See {@link Foo", ">", "> ", "\\begin{code}\n>",
         "First. one two three four five six seven eight nine ten eleven twelve thirteen fourteen fifteen sixteen seventeen eighteen nineteen twenty twenty-one two three four five six seven eight nine thirty one two three four five six seven eight nine forty one two\n",
-        "#let", "#let x", "#set text(lang:", "#f(a\nb $x$ c", "[d.I", "//go:x\n//\n", "//go:generate\n//", "[[||]]", "See [[|alias|extra]]", "\\[[target|alias|extra]]", "[[a|[b](x)|c]]", "![[b c|]]b c[- ", "[[a|]]b c d", " ```\n\tx", "$$$$x", "You could of \ncourse do it.", "He should of\n course.", "See e.g.", "e.g.", "1e999$", "0x", "[a-", "a@", "http://", "x:", "\"", "'", "’s",
+        "#let", "#let x", "#set text(lang:", "#f(a\nb $x$ c", "#let x = _(1)", "#{_()}", "[d.I", "//go:x\n//\n", "//go:generate\n//", "[[||]]", "See [[|alias|extra]]", "\\[[target|alias|extra]]", "[[a|[b](x)|c]]", "![[b c|]]b c[- ", "[[a|]]b c d", " ```\n\tx", "$$$$x", "You could of \ncourse do it.", "He should of\n course.", "See e.g.", "e.g.", "1e999$", "0x", "[a-", "a@", "http://", "x:", "\"", "'", "’s",
     ];
     let corpus: Vec<&str> = corpus.iter().copied().chain(textgen::LEXER_CORNERS.iter().copied()).collect();
     for id in &ids {
